@@ -38,6 +38,24 @@ RamWrite == ~RegsOnly /\ \E o \in Offs, v \in Vals :
 Next == Ctl \/ RamWrite
 Spec == Init /\ [][Next]_mvars
 
+(* ------------------------------- leg C ---------------------------------- *)
+(* One test per (register state, control write) of the graph above: the     *)
+(* banks the two ROM windows show and what A000-BFFF addresses afterwards.   *)
+(* The harness puts the real controller into the source state by the         *)
+(* canonical writes, performs the write and probes the windows. To keep the  *)
+(* output finite in the large graphs only boundary bank numbers and          *)
+(* boundary written values are emitted.                                      *)
+Emitting == "EMIT" \in DOMAIN IOEnv /\ IOEnv.EMIT = "1"
+EmitVals == {0, 1, 2, 3, 10, 15, 16, 26, 31, 32, 33, 63, 64, 96, 127, 128, 255}
+BoundaryBanks == {0, 1, 2, 3, 15, 16, 17, 31, 32, 33, 63, 64, 65, 127, 128, 255, 256, 257, 511}
+EmitState == st.romb \in BoundaryBanks /\ st.ramb \in {0, 1, 2, 3, 7, 8, 12, 13, 15}
+ProbeAddr == 40965
+EmitAll == \A a \in CtlAddrs, v \in EmitVals :
+              LET n == CtlWrite(Kind, st, a, v) IN
+              PrintT(<<"T", IF st.ramg THEN 1 ELSE 0, st.bank1, st.bank2, st.mode, st.romb, st.ramb, a, v,
+                       LowBank(Kind, n, RomBanks), HighBank(Kind, n, RomBanks), RamTarget(Kind, n, RamBanks, FALSE, ProbeAddr)>>)
+Emit == (Emitting /\ EmitState) => EmitAll
+
 (* ------------------------------- C08 ------------------------------------ *)
 BanksInRange == /\ LowBank(Kind, st, RomBanks) \in 0..(RomBanks - 1)
                 /\ HighBank(Kind, st, RomBanks) \in 0..(RomBanks - 1)
